@@ -65,7 +65,7 @@ Definition render (lead : bool) (src : msrc) : str :=
   | [] => []
   | (neg, t) :: rest =>
       (if neg then [c_minus] else if lead then [c_plus] else []) ++ render_term t ++
-      flat_map (fun x => (if fst x then c_minus else c_plus) :: render_term (snd x)) rest
+      flat_map (fun x : bool * mterm => (if fst x then c_minus else c_plus) :: render_term (snd x)) rest
   end.
 
 (* ---- sorted set of letters -------------------------------------------------- *)
